@@ -3,6 +3,9 @@ dedicated forked process whose fds 0/1/2 ("the terminal") belong to the harness,
 every tagged byte ended up.
 
 Stage i (1-based) of a pipeline, whatever its kind, behaves identically:
+  * if it was given any argument, writes ``A<i>_<arguments in order, each followed by '_'><i>A`` to
+    stdout first (so "argv delivered == argv written": a redirect operator that is mis-lexed
+    leaves a stray word in argv, or eats one, and that shows in every sink stdout reaches),
   * reads all of its stdin (when it has one); if it is non-empty, writes the line
     ``I<i>_<input lines in arrival order, each followed by '_'><i>I`` to stdout,
   * writes ``O<i>\\n`` to stdout, then ``E<i>\\n`` to stderr, returns 0.
@@ -29,6 +32,7 @@ CASE_TIMEOUT = 5.0  # wall-clock seconds for exec() of one line
 MAX_STAGES = 4
 
 _SH = """#!/bin/sh
+if [ $# -gt 0 ]; then a=""; for x in "$@"; do a="${{a}}${{x}}_"; done; echo "A{i}_${{a}}{i}A"; fi
 in=""
 while IFS= read -r l || [ -n "$l" ]; do in="${{in}}${{l}}_"; done
 if [ -n "$in" ]; then echo "I{i}_${{in}}{i}I"; fi
@@ -45,9 +49,12 @@ def stage_word(kind, i):
     return {"ext": "st", "thr": "ta", "unthr": "ua"}[kind] + str(i)
 
 
-def stage_stdout(i, stdin_lines):
-    """Reference for what stage i prints on stdout given the multiset of (canonical) lines it read."""
+def stage_stdout(i, stdin_lines, args=()):
+    """Reference for what stage i prints on stdout given its argv (without the command word) and
+    the multiset of (canonical) lines it read."""
     s = ""
+    if args:
+        s += f"A{i}_" + "".join(a + "_" for a in args) + f"{i}A\n"
     if stdin_lines:
         s += f"I{i}_" + "".join(ln + "_" for ln in sorted(stdin_lines)) + f"{i}I\n"
     return s + f"O{i}\n"
@@ -75,6 +82,12 @@ def canon_line(line):
                 raise ValueError(line)
             pos += 1
             return f"I{i}_" + "".join(k + "_" for k in sorted(kids)) + f"{i}I"
+        if len(t) == 2 and t[0] == "A" and t[1].isdigit() and (t[1] + "A") in toks[pos + 1 :]:
+            # the argv echo of a stage is one item; its words keep their order
+            end = toks.index(t[1] + "A", pos + 1)
+            unit = "_".join(toks[pos : end + 1])
+            pos = end + 1
+            return unit
         pos += 1
         return t
 
@@ -113,6 +126,8 @@ def _mk_alias(i):
         if stdin is not None:
             data = stdin.read()
         lines = [ln for ln in data.split("\n") if ln != ""]
+        if args:
+            stdout.write(f"A{i}_" + "".join(str(a) + "_" for a in args) + f"{i}A\n")
         if lines:
             stdout.write(f"I{i}_" + "".join(ln + "_" for ln in lines) + f"{i}I\n")
         stdout.write(f"O{i}\n")
@@ -137,7 +152,8 @@ def render(case):
             text = op if tgt is None else f"{op}{glue}{tgt}"
             (words if lead else trail).append(text)
         words.append(stage_word(st["kind"], i))
-        parts.append(" ".join(words + trail))
+        words += list(st.get("args", ()))
+        parts.append(" ".join(words + trail + list(st.get("args_after", ()))))
     line = " | ".join(parts)
     cap = case["capture"]
     if cap == "bare":
